@@ -182,7 +182,7 @@ def explore(ctx, res, replay=None):
         if pid == 'C14':
             # every keyword spelling of the rule table as it is in lexer.l now: alone, glued to a letter, inside a line
             sp = ctx.run_model([('sp', 'spellings x')])
-            words = [bytes.fromhex(w) for w in (sp['sp'].split() if sp else []) if w != '-']
+            words = sorted(set(bytes.fromhex(w) for w in (sp['sp'].split() if sp else []) if w != '-'))
             res.count('spellings_in_rule_table', len(words))
             for w in words:
                 add('spelling', {'m': w}, 'm')
